@@ -324,20 +324,45 @@ fn run_model<K: TestKey>(p: &Params, case: u64, rep: &mut Report) {
     // blob-integrity focus: one content above 4 MiB (beyond any buffer, mmap window or chunked
     // code path), stored first and then overwritten / removed while readers hold it
     if p.focus == "C06" && case % 25 == 24 && !(p.tier_thorough && case % 101 == 100) {
-        g.contents[0] = cassadilia_verif::ops::Content::new(78, (4 << 20) + rng.range(1, 2 << 20) as usize);
+        // lengths: above 4 MiB, or an exact multiple of 1 MiB (allocation / growth steps),
+        // written in one call or in 1 MiB calls
+        let (len, chunks): (usize, Vec<usize>) = match (case / 25) % 4 {
+            0 => ((4 << 20) + rng.range(1, 2 << 20) as usize, vec![100]),
+            1 => (1 << 20, vec![]),
+            2 => (3 << 20, vec![1 << 20, 1 << 20]),
+            _ => (4 << 20, vec![]),
+        };
+        g.contents[0] = cassadilia_verif::ops::Content::new(78, len);
         g.keys.truncate(2);
         g.extra.truncate(1);
-        wide_prefix.push(Op::Put { key: g.keys[0].clone(), content: g.contents[0], chunks: vec![100] });
+        wide_prefix.push(Op::Put { key: g.keys[0].clone(), content: g.contents[0], chunks });
         steps = 10;
-        rep.count("histories_with_blob_over_4MiB", 1);
+        rep.count("histories_with_blob_of_1_to_6_MiB", 1);
     }
     if wide {
         let n = rng.range(140, 330) as usize;
         let all: Vec<K> = (0..n).map(|i| K::bulk(i, 7)).collect();
         let c = cassadilia_verif::ops::Content::new(5, 9);
         let d = cassadilia_verif::ops::Content::new(6, 10);
+        // every other wide history is a "purge": a third of the keys hold contents of their own
+        // (dozens of distinct blobs live at once), then all but four keys go in one removal, a
+        // checkpoint follows, and one of two surviving keys that share a content is removed
+        let purge = rng.chance(1, 2);
         for (i, k) in all.iter().enumerate() {
-            wide_prefix.push(Op::Put { key: k.clone(), content: if i % 3 == 0 { d } else { c }, chunks: vec![] });
+            let content = if i == 0 || i == n - 1 || i % 3 == 0 {
+                d
+            } else if purge && i % 3 == 1 {
+                cassadilia_verif::ops::Content::new(2000 + i as u32, 11 + i % 7)
+            } else {
+                c
+            };
+            wide_prefix.push(Op::Put { key: k.clone(), content, chunks: vec![] });
+        }
+        if purge {
+            wide_prefix.push(Op::RemoveRange { lo: Bound::Included(all[2].clone()), hi: Bound::Excluded(all[n - 2].clone()) });
+            wide_prefix.push(Op::Checkpoint);
+            wide_prefix.push(Op::Remove { key: all[0].clone() });
+            rep.count("histories_with_mass_removal_then_checkpoint", 1);
         }
         // probes and generator keys: a sample, so that the per-step read oracle stays cheap
         g.keys = (0..8).map(|j| all[(j * n / 8 + j) % n].clone()).collect();
@@ -957,6 +982,44 @@ fn run_gate<K: TestKey>(p: &Params, case: u64, rep: &mut Report) {
                     ));
                 }
                 std::fs::write(&settings_path, &orig).unwrap();
+            }
+            // (b2) the settings file lost its content (empty, blank, cut short): whatever such a
+            // file means, it does not license an open with ANOTHER segment size on a populated
+            // store - that open is rejected and changes nothing
+            for (what, damaged) in [("empty", String::new()), ("blank", " \n".to_string()), ("cut short", orig[..orig.len() / 2].to_string())] {
+                if !rng.chance(1, 2) {
+                    continue;
+                }
+                std::fs::write(&settings_path, &damaged).unwrap();
+                let base_v = fsx::tree_snapshot(&root);
+                let n_bad = if n_create == 1 { 2 } else { n_create - 1 };
+                let r = cassadilia::Cas::<K>::open(&root, config(n_bad, true, false, true, true));
+                log.push(format!("open n={n_bad} with a settings file that is {what}"));
+                match r {
+                    Ok(h) => {
+                        drop(h);
+                        findings.push(Finding::new(
+                            &["C19"],
+                            "open with a different segment size was accepted because the settings file had lost its content",
+                            "segment size gate",
+                            format!("created with {n_create}, settings file {what}, opened with {n_bad}"),
+                        ));
+                    }
+                    Err(_) => rejected += 1,
+                }
+                let after = fsx::tree_snapshot(&root);
+                if after != base_v {
+                    findings.push(Finding::new(
+                        &["C19"],
+                        "a rejected open modified the database directory",
+                        "segment size gate",
+                        format!("settings file {what}: {:?}", fsx::diff_snapshots(&base_v, &after)),
+                    ));
+                }
+                std::fs::write(&settings_path, &orig).unwrap();
+                if !findings.is_empty() {
+                    break;
+                }
             }
         } else {
             findings.push(Finding::new(
